@@ -91,6 +91,8 @@ def edit_listing(rng, text: str):
                 t += " " + ann
             if com:
                 t += ("        " if has_ops else "") + com
+            if do("trailing-blanks"):
+                t += " " * rng.randint(1, 9)          # older binutils pad the mnemonic column of operand-less instructions
             out.append(f"{spaces}{ln.addr}:\t{col}\t{t}")
             if do("add-continuation"):
                 out.append(f"{spaces}{ln.addr}:\t" + "".join("%02x " % rng.randrange(256) for _ in range(rng.randint(1, 7))))
